@@ -153,6 +153,154 @@ pub fn e4b_decode(i: u64) -> Option<Pos> {
     Some(p)
 }
 
+/// Four-man family on a fast path: the board is a copy of an empty `from_fen` template with the
+/// squares and the two cached king squares written directly (sampled cases are compared with the
+/// `from_fen` board of the same FEN). Quick: a stride of the space; thorough: the COMPLETE space
+/// (both kings on every ordered pair x two further men of every kind and colour on every pair of
+/// squares; 1.68e9 indices), which exhausts "one attacker, one potential blocker" geometry.
+fn e4b_fast(ctx: &mut Ctx) {
+    let exhaustive = ctx.tier == Tier::Thorough;
+    let family = if exhaustive { "E4b_four_man_exhaustive" } else { "E4b_four_man_strided" };
+    if family_filtered_out(family) {
+        return;
+    }
+    let stride: u64 = if exhaustive { 1 } else { 13 };
+    let offset = if exhaustive { 0 } else { ctx.seed % stride };
+    let total = E4B_SPACE / stride;
+    let workers = ctx.workers.max(1) as u64;
+    let template = BoardState::from_fen("8/8/8/8/8/8/8/8 w - - 0 1").expect("empty board FEN");
+    let results: std::sync::Mutex<(Stats, Vec<(u64, String)>)> = std::sync::Mutex::new((Stats::new(), vec![]));
+    std::thread::scope(|sc| {
+        for w in 0..workers {
+            let template = &template;
+            let results = &results;
+            sc.spawn(move || {
+                let mut st = Stats::new();
+                let mut fails: Vec<(u64, String)> = vec![];
+                let (mut n_eval, mut n_nt, mut n_rim, mut n_adj, mut n_pawn, mut n_block, mut n_chk, mut n_cmp) = (0u64, 0u64, 0u64, 0u64, 0u64, 0u64, 0u64, 0u64);
+                let mut j = w;
+                while j < total {
+                    let i = j * stride + offset;
+                    j += workers;
+                    let Some(p) = e4b_decode(i) else { continue };
+                    n_eval += 1;
+                    let mut b = template.clone();
+                    let (mut wk, mut bk) = (0u8, 0u8);
+                    for s in 0..64u8 {
+                        if let Some((c, k)) = p.sq[s as usize] {
+                            let pt = sq2pt(s);
+                            b.board[pt.0][pt.1] = Square::Full(Piece { color: ecol_of(c), kind: ekind_of(k) });
+                            if k == Kind::King {
+                                if c == Color::White {
+                                    b.white_king_location = pt;
+                                    wk = s;
+                                } else {
+                                    b.black_king_location = pt;
+                                    bk = s;
+                                }
+                            }
+                        }
+                    }
+                    if i % 1_000_003 == 0 {
+                        // the fast board is the board the public loader builds
+                        n_cmp += 1;
+                        let fen_text = p.fen();
+                        let f = BoardState::from_fen(&fen_text);
+                        match f {
+                            Ok(f) if f.board == b.board && f.white_king_location == b.white_king_location && f.black_king_location == b.black_king_location => {}
+                            _ => {
+                                eprintln!("HARNESS ERROR: fast-path board differs from from_fen at {}", p.fen());
+                                std::process::exit(2);
+                            }
+                        }
+                        if st.samples.len() < 2 {
+                            st.sample(|| json!({"fen": p.fen()}));
+                        }
+                    }
+                    let mut bad = None;
+                    for c in [Color::White, Color::Black] {
+                        let want = p.in_check(c);
+                        let got = match catch(|| is_check(&b, ecol_of(c))) {
+                            Ok(g) => g,
+                            Err(e) => {
+                                bad = Some(format!("is_check panicked on '{}' for {:?}: {}", p.fen(), c, e));
+                                break;
+                            }
+                        };
+                        if want {
+                            n_chk += 1;
+                        }
+                        if got != want {
+                            bad = Some(format!("is_check({:?}) = {} on '{}' but under the rules that king is {}", c, got, p.fen(), if want { "attacked" } else { "not attacked" }));
+                            break;
+                        }
+                    }
+                    if let Some(m) = bad {
+                        if fails.len() < 3 {
+                            fails.push((i, m));
+                        }
+                    }
+                    // non-trivial by C06's rule, computed cheaply
+                    let rim = |s: u8| file_of(s) == 0 || file_of(s) == 7 || rank_of(s) == 0 || rank_of(s) == 7;
+                    let mut nt = false;
+                    if rim(wk) || rim(bk) {
+                        n_rim += 1;
+                        nt = true;
+                    }
+                    if (file_of(wk) - file_of(bk)).abs() <= 1 && (rank_of(wk) - rank_of(bk)).abs() <= 1 {
+                        n_adj += 1;
+                        nt = true;
+                    }
+                    for s in 0..64u8 {
+                        if let Some((c, k)) = p.sq[s as usize] {
+                            let ek = if c == Color::White { bk } else { wk };
+                            if k == Kind::Pawn && (file_of(s) - file_of(ek)).abs() == 1 && (rank_of(s) - rank_of(ek)).abs() == 1 {
+                                n_pawn += 1;
+                                nt = true;
+                            }
+                            if matches!(k, Kind::Bishop | Kind::Rook | Kind::Queen) {
+                                let (df, dr) = ((file_of(ek) - file_of(s)).abs(), (rank_of(ek) - rank_of(s)).abs());
+                                let aligned = match k {
+                                    Kind::Rook => df == 0 || dr == 0,
+                                    Kind::Bishop => df == dr,
+                                    _ => df == 0 || dr == 0 || df == dr,
+                                };
+                                if aligned && !p.man_attacks(s, (c, k), ek) {
+                                    n_block += 1;
+                                    nt = true;
+                                }
+                            }
+                        }
+                    }
+                    if nt {
+                        n_nt += 1;
+                    }
+                }
+                st.evals(n_eval);
+                st.nontrivial_by_construction = n_nt;
+                st.label_n("king_on_rim", n_rim);
+                st.label_n("adjacent_kings", n_adj);
+                st.label_n("pawn_diagonally_adjacent_to_enemy_king", n_pawn);
+                st.label_n("slider_line_blocked", n_block);
+                st.label_n("some_king_attacked", n_chk);
+                st.label_n("fast_board_compared_with_from_fen", n_cmp);
+                let mut g = results.lock().unwrap();
+                g.0.merge(st);
+                g.1.extend(fails);
+            });
+        }
+    });
+    let (st, mut fails) = results.into_inner().unwrap();
+    fails.sort();
+    for (i, m) in fails.into_iter().take(5) {
+        ctx.violation(family, json!({"fen": e4b_decode(i).map(|p| p.fen())}), m);
+    }
+    if exhaustive {
+        ctx.exhaustive_parts.push(format!("{} ({} indices, complete)", family, E4B_SPACE));
+    }
+    ctx.family_done(family, st, json!({"driver": "enumeration (fast path)", "exhaustive": exhaustive, "index_space": E4B_SPACE, "stride": stride}));
+}
+
 /// unconstrained placement: kings anywhere (adjacent allowed), any men, whoever is to move
 #[derive(Debug, Clone)]
 pub struct RawRecipe {
@@ -216,20 +364,7 @@ pub fn run_c06(ctx: &mut Ctx) {
         },
         |i| json!({"fen": e4_decode(i).map(|p| p.fen())}),
     );
-    let n4: u64 = t.pick(10_000_000, 120_000_000);
-    let seed = ctx.seed;
-    run_enum(
-        ctx,
-        "E4b_four_man_strided",
-        n4,
-        false,
-        move |j, st| {
-            let i = mix(j ^ seed.rotate_left(32)) % E4B_SPACE;
-            let Some(p) = e4b_decode(i) else { return Ok(()) };
-            c06_position(&p, st)
-        },
-        move |j| json!({"fen": e4b_decode(mix(j ^ seed.rotate_left(32)) % E4B_SPACE).map(|p| p.fen())}),
-    );
+    e4b_fast(ctx);
     let body = |r: &RawRecipe, st: &mut Stats| {
         let Some(p) = build_raw(r) else { return Ok(()) };
         if r.pawns_anywhere {
